@@ -315,15 +315,23 @@ async def _run_case(case: dict[str, Any], tmp: Path) -> list[dict[str, Any]]:
     lay = case.get("layout")
     if lay:
         pop_db = tmp / "pop.sqlite"
+        run_url: dict[int, str] = {}
         for r in lay.get("before", []):
-            await record_run(pop_db, r)
+            run_url[(await record_run(pop_db, r))["scan_run"]] = r["url"]
         rec2 = await record_run(pop_db, target)
+        run_url[rec2["scan_run"]] = target["url"]
         for r in lay.get("after", []):
-            await record_run(pop_db, r)
+            run_url[(await record_run(pop_db, r))["scan_run"]] = r["url"]
+        url_name: dict[str, str] = {}
         for r in lay.get("before", []) + [target] + lay.get("after", []):
             if r.get("ecu_name"):
                 link_ecu(pop_db, r["url"], r["ecu_name"])
+                url_name[r["url"]] = r["ecu_name"]
         prow = read_db(pop_db)
+        # ground truth of "which ECU was this run recorded against" is what the harness did (the URL each run
+        # used and the name the user linked to that URL), not what the database still says about it
+        for row in prow:
+            row["ecu"] = url_name.get(run_url.get(row["run"], ""), "")
         tgt = [r["id"] for r in prow if r["run"] == rec2["scan_run"]]
         same = [(prow[i - 1]["req"], prow[i - 1]["rsp"], prow[i - 1]["st"]) for i in tgt] == \
                [(r["req"], r["rsp"], r["st"]) for r in rows]
